@@ -29,6 +29,18 @@ type ArcInfo struct {
 	Large, Sweep   bool
 	RotDeg         float64 // the angle in degrees handed to ArcTo
 	Approx         bool    // the centre is a binary64 approximation of an irrational centre (C08 only; the judge validates it)
+	// Shrink > 1: the radii handed to ArcTo are Rx/Shrink, Ry/Shrink, too small for the chord by exactly that factor (only for
+	// antipodal end points, whose chord is a diameter): SVG's out-of-range correction scales them back up to Rx, Ry, so the
+	// requested arc is still exactly this one
+	Shrink float64
+}
+
+// ReqRadii are the radii handed to ArcTo.
+func (a *ArcInfo) ReqRadii() (float64, float64) {
+	if a.Shrink > 1 {
+		return a.Rx / a.Shrink, a.Ry / a.Shrink
+	}
+	return a.Rx, a.Ry
 }
 
 type CPath struct {
@@ -166,6 +178,9 @@ func arcWith(r *rng.R, sx, sy float64, mode int, reuse bool) *ArcInfo {
 		a.Large = cr > 0
 	}
 	a.RotDeg = math.Atan2(float64(sn), float64(cs)) * 180 / math.Pi
+	if cr == 0 && r.P(1, 2) {
+		a.Shrink = rng.Pick(r, []float64{2, 4, 1.5})
+	}
 	return a
 }
 
